@@ -823,6 +823,19 @@ class Reader:
                     except Unsupported:
                         if e['op'] != '=':
                             raise
+                        # a store that cannot be modelled must not leave the OLD value in place: the variable it writes into becomes unknown
+                        base, lvb = l0, None
+                        for _ in range(6):
+                            base = strip_casts(base['obj']) if base.get('k') == 'MCall' else strip_casts(base['args'][0]) if base.get('k') == 'Op' and base.get('args') else None
+                            if base is None:
+                                break
+                            lvb = self.lvalue(base, s2, ctx)
+                            if lvb:
+                                break
+                        if lvb and lvb[0] in ('field', 'local', 'localmember'):
+                            self.assign(lvb, Opaque('%s after the store %s' % (pp(base), pp(e)[:80])), s2)
+                        elif lvb is None and base is not None:
+                            raise
                         out.append((Opaque(pp(e)), s2))
                 return out
         if k == 'MCall' and name == 'count' and 'std::chrono::duration' in (e.get('cls') or '') and not args:
